@@ -343,6 +343,7 @@ func (h *harness) compare(p *Prog) verdict {
 		v.what = "return data (memory + stack dump) differs: " + describeDiff(ref.Ret, real.ret)
 	case v.diffStep >= 0:
 		v.mismatch = true
+		v.what = "outcome class and return data agree"
 	}
 	if v.mismatch && v.diffStep >= 0 {
 		v.what += fmt.Sprintf("; traces diverge at step %d: reference %s, real %s", v.diffStep, stepStr(ref.Trace, v.diffStep), stepStr(h.trace, v.diffStep))
@@ -474,9 +475,22 @@ func (h *harness) runCase(p *Prog) {
 		ends, opsAt := instrEnds(p.Body)
 		for j, e := range ends {
 			q := *p
-			q.Body = append(mon.Hex{}, p.Body[:e]...)
 			q.Tail = "return"
 			q.Note = "shortest disagreeing prefix of " + p.Family + "#" + strconv.Itoa(p.Index)
+			// keep the code length and all other bytes (CODESIZE / CODECOPY see them):
+			// overwrite the 4 bytes after the prefix with PUSH2 <epilogue> JUMP; fall
+			// back to truncation when the dead suffix would hide the epilogue's JUMPDEST.
+			q.Body = nil
+			if e+4 <= len(p.Body) {
+				b := append(mon.Hex{}, p.Body...)
+				b[e], b[e+1], b[e+2], b[e+3] = 0x61, byte(len(b)>>8), byte(len(b)), 0x56
+				if jd := evmref.JumpDests(append(append([]byte{}, b...), 0x5b)); jd[len(b)] {
+					q.Body = b
+				}
+			}
+			if q.Body == nil {
+				q.Body = append(mon.Hex{}, p.Body[:e]...)
+			}
 			var qv verdict
 			if r.Guard("C10:"+p.Family, &q, func() { qv = h.compare(&q) }) {
 				return
@@ -502,6 +516,8 @@ func (h *harness) runCase(p *Prog) {
 
 // ---------------------------------------------------------------------------
 
+var sampleFams = map[string]bool{"vec": true, "grid2": true, "jumpmap": true, "mem": true, "line": true, "branch": true}
+
 func childMain(r *mon.Run, args []string) {
 	if len(args) < 3 {
 		fmt.Println("MACHINERY: child needs <cfg> <shard> <nshards>")
@@ -522,7 +538,7 @@ func childMain(r *mon.Run, args []string) {
 			}
 			p.Cfg, p.Family, p.Index = cfgName, f.name, i
 			h.runCase(p)
-			if shard == 0 && i == shard && sampled < 6 && len(p.Body) < 200 {
+			if shard == 0 && cfgName == "default" && i == shard+nshards && sampled < 6 && sampleFams[f.name] {
 				sampled++
 				r.Sample(p)
 			}
@@ -600,9 +616,9 @@ func main() {
 	if workers < 2 {
 		workers = 2
 	}
-	timeout := 4 * time.Minute
+	timeout := 10 * time.Minute // watchdogs only ever produce "inconclusive"
 	if r.Thorough() {
-		timeout = 50 * time.Minute
+		timeout = 4 * time.Hour
 	}
 	var specs []mon.ChildSpec
 	for s := 0; s < workers; s++ {
@@ -614,7 +630,7 @@ func main() {
 		specs = append(specs, mon.ChildSpec{Label: fmt.Sprintf("pre022-%d", s), Args: []string{"pre022", strconv.Itoa(s), strconv.Itoa(pre)},
 			Timeout: timeout, Env: []string{"GOMAXPROCS=2"}})
 	}
-	results := r.RunChildren(specs, workers)
+	results := r.RunChildren(specs, len(specs))
 	for _, res := range results {
 		r.Absorb(res, "C10:child")
 	}
